@@ -25,6 +25,15 @@ def gen(lang, tier, seed, out, target="", sample=None, only_fmt=False):
             if st.endswith("|0|0|-") or rng.chance(1, 8):
                 out.write("applydec\t%s\t%s\t%s\n" % (code, ew, st))
                 n += 1
+    for w in ([] if only_fmt else vocab.affixed(lang)):
+        ew = esc(w)
+        out.write("morph\t%s\t%s\n" % (code, ew))
+        out.write("sep\t%s\t%s\n" % (code, ew))
+        out.write("link\t%s\t%s\n" % (code, ew))
+        n += 3
+        for st in ("|0|0|0|-", "1|0|0|0|-", "21|0|0|0|-", "100|0|0|0|-"):
+            out.write("apply\t%s\t%s\t%s\n" % (code, ew, st))
+            n += 1
     for st in states:
         if not st.startswith("|0|"):
             out.write("fmt\t%s\t%s\n" % (code, st))
